@@ -46,7 +46,13 @@ impl Pool {
     fn get(&mut self, name: &str) -> Option<&mut Worker> {
         if !self.workers.contains_key(name) {
             let path = self.dir.join(name);
-            let spawned = Command::new(&path)
+            // the worker runs under an address-space limit (HARNESS_WORKER_MEM_KB, default 8 GiB): a runaway recursion on a
+            // stack grown on the heap (stacker) ends in an allocation failure of the worker (reported as CRASH), not of the machine
+            let mem_kb = std::env::var("HARNESS_WORKER_MEM_KB").ok().and_then(|v| v.parse::<u64>().ok()).unwrap_or(8 * 1024 * 1024);
+            let spawned = Command::new("sh")
+                .arg("-c")
+                .arg(format!("ulimit -v {}; exec \"$0\"", mem_kb))
+                .arg(&path)
                 .env("HARNESS_WORKER", "1")
                 .stdin(Stdio::piped())
                 .stdout(Stdio::piped())
